@@ -569,7 +569,9 @@ SPEC = {
             'generations up to 65535; f32 reals printed by Rust; objects typed ObjStm/XRef/Linearized; trailers with stale bookkeeping keys) '
             'saved by Document::save_to in both cross-reference formats, then 0-4 incremental updates -- 5-6 in the hist* family -- (add_object / set_object / '
             'opt_clone_object_to_new_document + stream operations) saved by IncrementalDocument::save_to after IncrementalDocument::load_from; '
-            'every produced file is read by the extracted Coq strict reader; 12% documents outside the domain and byte-level damage of real '
+            'every produced file is read by the extracted Coq strict reader; every save is repeated into five sinks that accept fewer bytes than '
+            'offered (7 / 1 bytes per call, Interrupted every 4th call, pipe-like 64-byte buffer, ragged) and must deliver the bytes a Vec receives -- '
+            'a differing output is read by the strict reader as the file of that save; 12% documents outside the domain and byte-level damage of real '
             'output serve as negative controls; non-trivial = at least one object; distinct = distinct case text',
     'extra_trusted': ['C03: the oracle is coq/Spec/StrictReader.v (ISO 32000-1 7.2/7.3/7.5 as read by its author); numbers are compared by '
                       'value (exact decimal -> nearest f32 in lib/vlib.py); expected objects = the document printed by the harness just before '
